@@ -64,7 +64,7 @@ def g_str_items(rng, q):
 
 def g_lexeme(rng):
     k = rng.choice(['num', 'ident', 'identd', 'fixed', 'fast', 'pct', 'dim', 'hash', 'atkw', 'atkw',
-                    'str', 'stri', 'stri', 'fn', 'fn', 'uri', 'uri', 'ur', 'cmt', 'cmt', 'cdc'])
+                    'str', 'stri', 'stri', 'uriq', 'uriq', 'fn', 'fn', 'uri', 'uri', 'ur', 'cmt', 'cmt', 'cdc'])
     if k == 'num':
         d = _digits(rng)
         return 'num,%s' % enc(d), d, ('NUMBER', d)
@@ -110,6 +110,16 @@ def g_lexeme(rng):
         codes, body = g_str_items(rng, q)
         text = q + body + q
         return 'stri,%s,%s' % (enc(q), enc(codes)), text, ('STRING', spec_string_value(text))
+    if k == 'uriq':
+        from harness.c05 import spec_string_value
+        u = _case(rng, 'url')
+        q = rng.choice('"\'')
+        codes, body = g_str_items(rng, q)
+        w1 = ''.join(rng.choice(' \t\n\r\f') for _ in range(rng.choice([0, 0, 1, 2])))
+        w2 = ''.join(rng.choice(' \t\n\r\f') for _ in range(rng.choice([0, 0, 1, 2])))
+        text = u + '(' + w1 + q + body + q + w2 + ')'
+        return 'uriq,%s,%s,%s,%s,%s' % (enc(u), enc(w1), enc(q), enc(codes), enc(w2)), text, \
+            ('URI', spec_string_value(text))
     if k == 'fn':
         while True:
             s = _ident(rng, IDENT_START)
